@@ -264,6 +264,11 @@ func runQueryHistory(w *World, tr *Trace, prop string) {
 		prof.Avoid = w.Seed%10 < 7
 		ints = !prof.Avoid && r.Intn(2) == 0
 		prof.Kinds = c08Kinds
+		if prop == "C06" {
+			prof.Kinds = append(append([]string{}, c08Kinds...), "link", "link", "unlink", "q", "q")
+			prof.Int8 = r.Intn(4) == 0
+			prof.F16 = r.Intn(4) == 0
+		}
 	}
 	w.Res.Avoid = prof.Avoid
 	w.Res.Profile = map[string]any{"gen": prof, "ints": ints}
@@ -278,6 +283,9 @@ func runQueryHistory(w *World, tr *Trace, prop string) {
 	state := "live"
 
 	genQ := func() Op {
+		if prop == "C06" {
+			return genSearchQ(r, gs, ix, prof.Dim)
+		}
 		if prop == "C08" {
 			e := genExpr(r)
 			return Op{K: "q_filter", Idx: ix, Expr: e, Q: renderExpr(r, e)}
@@ -312,6 +320,12 @@ func runQueryHistory(w *World, tr *Trace, prop string) {
 				op = Op{K: "create", Idx: ix, Cfg: &IndexCfg{Metric: prof.Metrics[0], Prec: "float32", M: 16, EfC: 200, Lang: lang}}
 				if prof.SmallEf {
 					op.Cfg.M, op.Cfg.EfC = 4, 6
+				}
+				if prof.Int8 && prof.Metrics[0] == "cosine" {
+					op.Cfg.Prec = "int8"
+				}
+				if prof.F16 && prof.Metrics[0] == "euclidean" {
+					op.Cfg.Prec = "float16"
 				}
 			default:
 				k := pick(r, prof.Kinds)
@@ -367,6 +381,9 @@ func runQueryHistory(w *World, tr *Trace, prop string) {
 						continue
 					}
 					op = Op{K: "compress", Idx: ix, Prec: map[string]string{"euclidean": "float16", "cosine": "int8"}[gi.Cfg.Metric]}
+				case "link", "unlink":
+					nodes := gs.IDs[:min(4, len(gs.IDs))]
+					op = Op{K: k, Idx: ix, ID: pick(r, nodes), ID2: pick(r, nodes), Rel: pick(r, gs.Rels), W: 1}
 				case "maint":
 					op = Op{K: "maint", Idx: ix, Task: pick(r, []string{"vacuum", "refine"})}
 				case "advance":
@@ -527,6 +544,8 @@ func queryCheck(w *World, m *Model, op Op, i int, state string) bool {
 		return len(want) > 0
 	case "q_text", "q_hybrid":
 		return textCheck(w, mi, op, i, state)
+	case "q_search":
+		return searchCheck(w, m, op, i, state)
 	}
 	return false
 }
